@@ -26,6 +26,8 @@ func runC03(p *Program, r *Report) {
 	ruleR033(p, r)
 	r.Rule("R03.4", "E2", 1, "a buffer that was handed to the caller is never rewritten in place: the searchable-column processor returns its saved copy of the stored value (rawData) when verification fails and the proxy keeps that slice until the row is written; every in-place write into that field's backing array (copy into it, append onto a re-slice of it, element store) must follow a fresh allocation assigned to the field in the same function")
 	ruleR034(p, r)
+	r.Rule("R03.5", "E3", 4, "every candidate position is examined: the inline envelope scanner advances to the tag it found, by one byte when no envelope starts there, or by the length of the envelope it replaced (a damaged or foreign value next to a run of tag bytes is still found and handled)")
+	ruleScanAdvance(p, r, "R03.5")
 }
 
 func ruleR032(p *Program, r *Report) {
